@@ -397,16 +397,19 @@ theorem commit_complete_modes (cd : Codec) (m : Mode) (c : Cfg) (s : Store) (txn
       · have : cd.parseRef hx = some (.id hx) := cd.ref_rt (.id hx)
         simp [readOf, finalNM, hm, Edit.intended, this]
 
-/-- `reflogs_whole_lines` — in every mode, after a crash at ANY point every reflog file consists of
-whole lines: a reflog line is appended by ONE `write(2)` (fix a69d64dab; in the model one `append`
-step that does not go through `chunk`), so no prefix of the steps can tear it. (Reflogs of the
-initial state are modelled as empty files: the statement is about what the transaction writes.) -/
-theorem reflogs_whole_lines (m : Mode) (c : Cfg) (s : Store) (txn : List Edit) (h : TxnInput c s txn) (k : Nat)
+/-- `reflogs_whole_lines` — in every mode: if the reflog files of the initial state consist of whole
+lines (each ending in a newline), then after a crash at ANY point every reflog file still consists
+of whole lines. A reflog line is appended by ONE `write(2)` (fix a69d64dab; in the model one
+`append` step that does not go through `chunk`), so no prefix of the steps can tear it. -/
+theorem reflogs_whole_lines (m : Mode) (c : Cfg) (s : Store) (txn : List Edit) (h : TxnInput c s txn)
+    (hlog : ∀ p, WholeLines (s.logContent p)) (k : Nat)
     (p : Path) (content : Bytes) (hp : isLogPath p = true)
-    (hf : fileAt (applyAll ((txnStepsM m c s txn).take k) s.toFs) p = some content) :
-    ∃ lines : List Bytes, content = lines.flatten ∧ ∀ l ∈ lines, l.getLast? = some 10 :=
+    (hf : fileAt (applyAll ((txnStepsM m c s txn).take k) s.toFs) p = some content) : WholeLines content :=
   logsWhole_applyAll (fun op ho => steps_lineSafe m c s txn h.names_ref op (List.mem_of_mem_take ho))
-    (init_logsWhole h.loose_ref) p content hp hf
+    (init_logsWhole h.loose_ref hlog) p content hp hf
+
+-- non-vacuity: a reflog with one entry
+example : WholeLines [97, 32, 98, 10] := ⟨[[97, 32, 98, 10]], rfl, by simp⟩
 
 /-- `leftovers_are_locks_modes` — clause (4) for ALL three modes at the strength the harness checks on
 the real code: after a crash at any point, every file that is neither a file of the initial state
